@@ -219,8 +219,44 @@ def target_callee(module: str, fname: str):
     return (f"{module}:{fname}[step contract]", module, fname, run)
 
 
+def target_progress_confined():
+    """discharges an assumption of the step analysis: a Progress object is only ever created as the context expression of a
+    `with` statement (never kept in a module-level variable, an attribute or a container), so a function that is not handed the
+    object cannot step it"""
+    def run(sess: Session):
+        mods = sorted(set(MODULES + ["analysis/zhit/weights", "analysis/zhit/smoothing/__init__", "analysis/zhit/interpolation", "analysis/zhit/reconstruction", "analysis/zhit/offset",
+                                     "analysis/kramers_kronig/least_squares", "analysis/kramers_kronig/matrix_inversion", "analysis/kramers_kronig/cnls", "analysis/kramers_kronig/utility", "analysis/utility"]))
+        n = 0
+        for m in mods:
+            try:
+                tree = core.module_ast(m)
+            except (FileNotFoundError, OSError):
+                continue
+            n += 1
+            with_exprs = {id(i.context_expr) for w in ast.walk(tree) if isinstance(w, ast.With) for i in w.items}
+            annotations = set()
+            for node in ast.walk(tree):
+                if isinstance(node, ast.AnnAssign):
+                    annotations |= {id(x) for x in ast.walk(node.annotation)}
+                elif isinstance(node, ast.arg) and node.annotation is not None:
+                    annotations |= {id(x) for x in ast.walk(node.annotation)}
+                elif isinstance(node, ast.FunctionDef) and node.returns is not None:
+                    annotations |= {id(x) for x in ast.walk(node.returns)}
+            stray = []
+            for node in ast.walk(tree):
+                if isinstance(node, ast.Call) and isinstance(node.func, ast.Name) and node.func.id == "Progress" and id(node) not in with_exprs:
+                    stray.append(node.lineno)
+                elif isinstance(node, ast.Name) and node.id == "Progress" and id(node) not in annotations and not any(isinstance(c, ast.Call) and c.func is node for c in ast.walk(tree)):
+                    stray.append(node.lineno)
+            ob = sess.check("frame", [], z3.BoolVal(not stray), 0, label=f"{m}: Progress objects exist only as `with Progress(...) as name`")
+            if stray:
+                ob.detail = f"other uses at lines {stray[:6]}"
+        sess.check("cover", [], z3.BoolVal(n >= 12), 0, label=f"modules scanned: {n}")
+    return ("analysis/fitting:Progress objects are confined to their with blocks", "analysis/fitting", "fit_circuit", run)
+
+
 def targets():
-    out = []
+    out = [target_progress_confined()]
     for m in MODULES:
         for fn in functions_with_progress(m):
             out.append(target_steps(m, fn.name))
